@@ -37,7 +37,7 @@ AE = [None, 'gzip', 'deflate', 'gzip, deflate', 'deflate, gzip',
       'gzip;q=0.5', 'gzip;q=0', 'br', 'br, gzip', ' gzip ', '*', 'GZIP',
       'identity', 'deflate;q=0, gzip']
 CHARS = {'quote': '"', 'bslash': '\\', 'slash': '/', 'lf': '\n', 'cr': '\r',
-         'tab': '\t', 'nul': '\x00', 'ls': ' ', 'ps': ' ',
+         'tab': '\t', 'nul': '\x00', 'ls': '\u2028', 'ps': '\u2029',
          'nel': '\x85', 'latin': 'é', 'astral': '😀', 'script': '</script>',
          'bsq': '\\"', 'bsn': '\\n', 'u': '\\u0041', 'end': '");',
          'apos': "'"}
